@@ -426,6 +426,20 @@ def _wiring(m, cfg):
         zstep = None
     fs = []
     sc = m.abs(Wcm) + sum((m.abs(O[k]) for k in range(ndim)), m.t(0.0)) + sum((m.abs(C_[k][n]) for k in range(ndim) for n in range(ncell)), m.t(0.0))
+    # counterexamples of the cut-point obligations are replayed END TO END: among the violating inputs prefer those where the
+    # cells are small, well inside the window and off-centre by a different positive amount along u and v (so that a
+    # mirrored / swapped / shifted image differs at the pixels of the 16x16 replay grid); verdicts do not depend on this
+    vis = []
+    for n in range(ncell):
+        rel_ = [C_[k][n] - O[k] for k in range(ndim)]
+        du = sum((uvec[k] * rel_[k] for k in range(ndim)), m.t(0.0))
+        dv = sum((vvec[k] * rel_[k] for k in range(ndim)), m.t(0.0))
+        a0 = 0.15 - 0.25 * n
+        vis += [m.ge(S_[n], Wcm / 8.0), m.le(S_[n], Wcm / 6.0), m.ge(du, a0 * Wcm), m.le(du, (a0 + 0.04) * Wcm),
+                m.ge(dv, 0.29 * Wcm), m.le(dv, 0.33 * Wcm)]
+        if ndim == 3:
+            dn = sum((nvec[k] * rel_[k] for k in range(ndim)), m.t(0.0))
+            vis += [m.le(m.abs(dn), S_[n] / 8.0)]
 
     def A(name):
         return [m.t(t) for t in m.vals(rec[name])]
@@ -446,7 +460,7 @@ def _wiring(m, cfg):
             fs.append(m.close(coz[q] * div, rel[2], scale=sc) if coz is not None else m.And(False))
         else:
             m.require(coz is None, "2-D mesh: no z coordinate is handed over", key=f"args-2d:{tag}")
-    m.check("the kernel receives the selected cells' positions (both bases) and half sizes in window units", m.And(fs), key=f"args-cells:{tag}")
+    m.check("the kernel receives the selected cells' positions (both bases) and half sizes in window units", m.And(fs), key=f"args-cells:{tag}", prefer=vis)
     G = np.asarray(raw(rec["grid_positions_in_original_basis"]) if hasattr(rec["grid_positions_in_original_basis"], "_ld")
                    else rec["grid_positions_in_original_basis"], dtype=object)
     fs = []
@@ -465,7 +479,7 @@ def _wiring(m, cfg):
         # thin: the single depth sample z = 0 must lie inside the depth bin [lo, lo + spacing)
         fs += [m.le(lo[2], 0), m.gt(lo[2] + spc[2], 0)]
     m.check("the kernel's grid is the pixel sample points origin + x_i u + y_j v (+ z_k n), evenly spaced and covering the window/slab",
-            m.And(fs), key=f"args-grid:{tag}")
+            m.And(fs), key=f"args-grid:{tag}", prefer=vis)
     m.require(rec["ndim"] == ndim, "ndim handed over", key=f"args-ndim:{tag}")
     # cell values
     cv = np.asarray(raw(rec["cell_values"]), dtype=object)
@@ -479,14 +493,14 @@ def _wiring(m, cfg):
         else:
             fs.append(m.close(m.t(cv[0][q]), RHO[n]))
     m.check("the kernel receives the layer values of the selected cells (vectors projected on u, v and their in-plane magnitude)",
-            m.And(fs), key=f"args-values:{tag}")
+            m.And(fs), key=f"args-values:{tag}", prefer=vis)
     # ---- A3: assembly of the result from the kernel output F
     F = rec["F"]
     px, py = m.vals(p.x), m.vals(p.y)
     if m.require(len(px) == nx and len(py) == ny, "one coordinate per pixel", key=f"centres:{tag}"):
         m.check("returned x, y are the pixel centres in the unit of dx",
                 m.And([m.close(m.t(a) * fu, b, scale=Wcm) for a, b in zip(px, xs)] + [m.close(m.t(a) * fu, b, scale=Wcm) for a, b in zip(py, ys)]),
-                key=f"centres:{tag}")
+                key=f"centres:{tag}", prefer=vis)
     if not thick:
         m.require(dict(kw["resolution"]) == res_in, "the caller's resolution dict is not modified", key=f"resolution-modified:{tag}")
     data = p.layers[0]["data"]
@@ -510,7 +524,7 @@ def _wiring(m, cfg):
                     if m.require(not got_masked, "a pixel with a value is not masked", key=f"assembly-mask:{tag}"):
                         fs.append(m.close(m.t(got), want, scale=sum((m.abs(c) for c in col if c is not None), m.t(0.0))))
     m.check("the result holds, per pixel, the kernel output reduced along the depth" + (" (sum times the depth step)" if thick else ""),
-            m.And(fs), key=f"assembly-value:{tag}")
+            m.And(fs), key=f"assembly-value:{tag}", prefer=vis)
     unit = str(p.layers[0]["unit"])
     base_unit = "centimeter / second" if layer == "vector" else "gram / centimeter ** 3"
     if thick and op in ("sum", "nansum"):
